@@ -125,13 +125,15 @@ def make_func(npos, ndef, varargs, nkw, kwmask, varkw, annot, is_async):
     elif nkw:
         parts.append('*')
     for j, nm in enumerate(KWO[:nkw]):
-        p = nm + (': str' if annot else '')
+        p = nm + ((': None' if (j == 0 and annot and (npos + ndef) % 2 == 1) else ': str') if annot else '')
         if kwmask & (1 << j):
             p += '=%d' % (20 + j)
         parts.append(p)
     if varkw:
         parts.append('**kw' + (': str' if annot else ''))
-    ret = ' -> list' if annot else ''
+    # every other annotated signature uses None as an annotation VALUE (return and first keyword-only parameter)
+    none_annot = annot and (npos + ndef) % 2 == 1
+    ret = (' -> None' if none_annot else ' -> list') if annot else ''
     # every other signature has no docstring at all (__doc__ is None, which a wrapper must keep)
     doc = '    "doc of target"\n' if (npos + nkw + varargs) % 2 == 0 else ''
     src = '%sdef target(%s)%s:\n%s    return sorted(locals().items(), key=repr)\n' % ('async ' if is_async else '', ', '.join(parts), ret, doc)
@@ -235,6 +237,19 @@ def _wraps_body(sigparams, mode, target_idx, with_default):
                 return fail('injected_signature', '%s removing %r: %s' % (tag, inj, sig_w))
             if sig_w.return_annotation != sig_f.return_annotation:
                 return fail('injected_return_annotation', '%s removing %r: %s' % (tag, inj, sig_w))
+        # injected and expected in one call: the new parameter is positional-or-keyword and every remaining default stays put
+        w = wraps(f, injected=[victim], expected=['z'])(inner)
+        sig_w = inspect.signature(w, follow_wrapped=False)
+        rest = [p for n, p in sig_w.parameters.items() if n != 'z']
+        if rest != [p for n, p in sig_f.parameters.items() if n != victim]:
+            return fail('injected_expected_changed_other_parameters', '%s removing %s adding z: %s' % (tag, victim, sig_w))
+        pz = sig_w.parameters.get('z')
+        # a parameter without a default can only be positional when no remaining positional parameter has a default
+        pos_defaults_left = any(p.kind == inspect.Parameter.POSITIONAL_OR_KEYWORD and p.default is not inspect.Parameter.empty
+                                for n, p in sig_f.parameters.items() if n != victim)
+        want_kind = inspect.Parameter.KEYWORD_ONLY if pos_defaults_left else inspect.Parameter.POSITIONAL_OR_KEYWORD
+        if pz is None or pz.kind != want_kind or pz.default is not inspect.Parameter.empty:
+            return fail('injected_expected_new_parameter', '%s removing %s adding z: %s' % (tag, victim, sig_w))
         return done(True, kind='injected', sig=src.splitlines()[0], victim=victim)
     # expected: a new parameter 'z'
     if is_async:
